@@ -3,3 +3,6 @@ pub mod bitsprops;
 pub mod quadprops;
 pub mod c08;
 pub mod c17;
+pub mod derived;
+pub mod c12;
+pub mod c19;
